@@ -18,6 +18,13 @@ type Block struct {
 	Attrs   []string
 }
 
+// TParent is one non-root element of a tree with the indexes of all cursor positions
+// directly inside it (in front of / behind each child element, between any two characters
+// of its texts), ascending. Two of them delimit a range that stays inside this element.
+type TParent struct {
+	Bounds []int
+}
+
 // Cont is one live container reachable from the root.
 type Cont struct {
 	Path      []string
@@ -29,6 +36,7 @@ type Cont struct {
 	U16       []uint16
 	CntType   string
 	Blocks    []Block
+	Parents   []TParent
 	TreeLen   int
 	Depth     int
 }
@@ -126,6 +134,32 @@ func Scan(root *crdt.Object, maxDepth int) []Cont {
 				}
 				pos += b.Size
 				c.Blocks = append(c.Blocks, b)
+			}
+			var parents func(n *crdt.TreeNode, start int)
+			parents = func(n *crdt.TreeNode, start int) {
+				// start: index just behind n's open tag
+				tp := TParent{Bounds: []int{start}}
+				at := start
+				for _, ch := range n.Index.Children() {
+					if ch.IsText() {
+						for k := 0; k < ch.Len(); k++ {
+							at++
+							tp.Bounds = append(tp.Bounds, at)
+						}
+						continue
+					}
+					parents(ch.Value, at+1)
+					at += ch.PaddedLength()
+					tp.Bounds = append(tp.Bounds, at)
+				}
+				c.Parents = append(c.Parents, tp)
+			}
+			at := 0
+			for _, ch := range r.Index.Children() {
+				if !ch.IsText() {
+					parents(ch.Value, at+1)
+				}
+				at += ch.PaddedLength()
 			}
 			out = append(out, c)
 		}
